@@ -761,6 +761,155 @@ fn run_cfg(u: &UnitCfg, budget_s: u64, out: &mut ChunkResult) {
     }
 }
 
+// ------------------------------------------------------------------------------------------------
+// drop matrix: key / value types with and without drop glue
+// ------------------------------------------------------------------------------------------------
+
+trait Item: Sized + Clone {
+    fn mk(x: u64, l: &Ledger) -> Self;
+    const TRACKED: bool;
+}
+impl Item for TK {
+    fn mk(x: u64, l: &Ledger) -> Self {
+        TK { k: x, id: new_id(Rc::as_ptr(l)), ledger: Rc::as_ptr(l) }
+    }
+    const TRACKED: bool = true;
+}
+impl Item for TV {
+    fn mk(x: u64, l: &Ledger) -> Self {
+        TV { v: x as u8, id: new_id(Rc::as_ptr(l)), ledger: Rc::as_ptr(l) }
+    }
+    const TRACKED: bool = true;
+}
+impl Item for u64 {
+    fn mk(x: u64, _l: &Ledger) -> Self {
+        x
+    }
+    const TRACKED: bool = false;
+}
+impl Item for u32 {
+    fn mk(x: u64, _l: &Ledger) -> Self {
+        x as u32
+    }
+    const TRACKED: bool = false;
+}
+
+/// operation alphabet of the drop matrix: code / 3 = kind, code % 3 = key
+const DM_OPS: u64 = 17;
+
+fn dm_history(code: u64, depth: u32) -> Vec<u64> {
+    let mut c = code;
+    (0..depth)
+        .map(|_| {
+            let o = c % DM_OPS;
+            c /= DM_OPS;
+            o
+        })
+        .collect()
+}
+
+/// one history on a CaoHashMap<K, V>: no tracked object is ever dropped twice, every tracked object
+/// is dropped exactly once when the map (and the clone) is gone
+fn dm_run<K: Item + Hash + Eq, V: Item>(hist: &[u64]) -> Option<(String, String)> {
+    let ledger: Ledger = Rc::new(RefCell::new(Vec::new()));
+    let keys = key_alphabet();
+    let mut map: CaoHashMap<K, V, SysAllocator> = CaoHashMap::with_capacity_in(0, SysAllocator::default()).ok()?;
+    let mut clones: Vec<CaoHashMap<K, V, SysAllocator>> = Vec::new();
+    let check = |when: &str, ledger: &Ledger| -> Option<(String, String)> {
+        for (id, d) in ledger.borrow().iter().enumerate() {
+            if *d > 1 {
+                return Some(("dropmatrix/double".into(), format!("{when}: object #{id} dropped {d} times")));
+            }
+        }
+        None
+    };
+    for (step, op) in hist.iter().enumerate() {
+        let k = keys[(*op % 3) as usize];
+        match *op / 3 {
+            0 => {
+                let _ = map.insert(K::mk(k, &ledger), V::mk(1, &ledger));
+            }
+            1 => {
+                let probe = K::mk(k, &ledger);
+                let _ = map.remove(&probe);
+            }
+            2 => {
+                if let Ok(e) = map.entry(K::mk(k, &ledger)) {
+                    let l2 = ledger.clone();
+                    e.or_insert_with(|| V::mk(2, &l2));
+                }
+            }
+            3 => {
+                let probe = K::mk(k, &ledger);
+                if let Some(v) = map.get_mut(&probe) {
+                    *v = V::mk(3, &ledger);
+                }
+            }
+            4 => match *op % 3 {
+                0 => map.clear(),
+                1 => {
+                    let _ = map.reserve(5);
+                }
+                _ => clones.push(map.clone()),
+            },
+            _ => {
+                // replace the map by its clone (the original is dropped here)
+                if *op % 3 == 0 {
+                    let c = map.clone();
+                    map = c;
+                } else {
+                    clones.clear();
+                }
+            }
+        }
+        if let Some(v) = check(&format!("after step {step}"), &ledger) {
+            return Some(v);
+        }
+    }
+    let live = map.len();
+    drop(map);
+    drop(clones);
+    for (id, d) in ledger.borrow().iter().enumerate() {
+        if *d != 1 {
+            return Some((if *d == 0 { "dropmatrix/leak" } else { "dropmatrix/double" }.into(), format!("after dropping the map ({live} entries at the end): object #{id} dropped {d} times (key tracked: {}, value tracked: {})", K::TRACKED, V::TRACKED)));
+        }
+    }
+    None
+}
+
+fn dm_dispatch(combo: u64, hist: &[u64]) -> Option<(String, String)> {
+    match combo {
+        0 => dm_run::<TK, u32>(hist),
+        1 => dm_run::<u64, TV>(hist),
+        _ => dm_run::<TK, TV>(hist),
+    }
+}
+
+fn dm_depth(tier: Tier) -> u32 {
+    tier.pick(4, 5)
+}
+
+fn run_drop_matrix(tier: Tier, out: &mut ChunkResult) {
+    let depth = dm_depth(tier);
+    let total = DM_OPS.pow(depth);
+    for combo in 0..3u64 {
+        for code in 0..total {
+            let hist = dm_history(code, depth);
+            out.evaluations += 1;
+            out.traces += 1;
+            out.transitions += depth as u64;
+            if let Some((k, w)) = dm_dispatch(combo, &hist) {
+                let names = ["tracked key / plain value", "plain key / tracked value", "tracked key / tracked value"];
+                out.violation(Violation::new("C12", k, format!("{}: history {:?}: {w}", names[combo as usize], hist), serde_json::json!({"dropmatrix": combo, "history": hist})));
+                break;
+            }
+        }
+        out.states += 1;
+        out.nontrivial += 1;
+    }
+    out.outcome("drop matrix");
+}
+
 impl Check for C12 {
     fn id(&self) -> &'static str {
         "C12"
@@ -769,7 +918,7 @@ impl Check for C12 {
     fn info(&self, tier: Tier) -> CheckInfo {
         let u = unit_cfgs(tier);
         CheckInfo {
-            rule: "explicit-state BFS over histories of insert/insert_with_hint/remove/remove_with_hint/entry().or_insert_with/get_mut-assign/reserve(0|1|5)/clear/clone-and-continue on the real CaoHashMap<tracked key, tracked value, A>; key alphabet chosen with the real hasher (3 keys whose home slot is the last bucket at capacities 3,4,6,9,13, 2 keys with home slot 0, 1 ordinary key, 1 key hashing to the reserved value 0); after every step get/contains/get_with_hint/contains_with_hint for every key, len, is_empty, iter, iter_mut, bucket dump compared with a BTreeMap model; drop ledger (no object dropped twice at any step, every object dropped exactly once after the map is dropped); fault runs: the same search with allocation #i failing, for every i. Canonical state = capacity, count and every bucket (hash,key,value) in storage order. Non-trivial = state in which a live key is displaced from its home slot".into(),
+            rule: "explicit-state BFS over histories of insert/insert_with_hint/remove/remove_with_hint/entry().or_insert_with/get_mut-assign/reserve(0|1|5)/clear/clone-and-continue on the real CaoHashMap<tracked key, tracked value, A>; key alphabet chosen with the real hasher (3 keys whose home slot is the last bucket at capacities 3,4,6,9,13, 2 keys with home slot 0, 1 ordinary key, 1 key hashing to the reserved value 0); after every step get/contains/get_with_hint/contains_with_hint for every key, len, is_empty, iter, iter_mut, bucket dump compared with a BTreeMap model; drop ledger (no object dropped twice at any step, every object dropped exactly once after the map is dropped); fault runs: the same search with allocation #i failing, for every i. Canonical state = capacity, count and every bucket (hash,key,value) in storage order. Non-trivial = state in which a live key is displaced from its home slot. Drop matrix: every history of a 17-operation alphabet (insert / remove / entry / get_mut-assign on 3 keys, clear, reserve, clone, replace-by-clone, drop clones) up to depth 4 (thorough 5) on maps whose key type has drop glue and whose value type has none, the reverse, and both: no object dropped twice at any step, each dropped exactly once at the end".into(),
             bound: format!("history depth {} (fault runs depth {}), configurations {:?}", u[0].depth, u[4].depth, u.iter().map(|c| format!("{:?}/cap{}", c.alloc, c.init_cap)).collect::<Vec<_>>()),
             exhaustive: true,
             assumptions: vec![
@@ -782,7 +931,7 @@ impl Check for C12 {
     }
 
     fn units(&self, tier: Tier) -> u64 {
-        unit_cfgs(tier).len() as u64
+        unit_cfgs(tier).len() as u64 + 1
     }
 
     fn unit_timeout_s(&self, tier: Tier) -> u64 {
@@ -790,11 +939,18 @@ impl Check for C12 {
     }
 
     fn run_unit(&self, tier: Tier, unit: u64, out: &mut ChunkResult) {
+        if unit as usize == unit_cfgs(tier).len() {
+            return run_drop_matrix(tier, out);
+        }
         let u = unit_cfgs(tier)[unit as usize].clone();
         run_cfg(&u, tier.pick(30, 900), out);
     }
 
     fn replay(&self, case: &J) -> Option<Violation> {
+        if let Some(combo) = case["dropmatrix"].as_u64() {
+            let h: Vec<u64> = serde_json::from_value(case["history"].clone()).ok()?;
+            return dm_dispatch(combo, &h).map(|(k, w)| Violation::new("C12", k, w, case.clone()));
+        }
         let h: Vec<Op> = serde_json::from_value(case["history"].clone()).ok()?;
         let fail_at = case["fail_at"].as_u64();
         let u = UnitCfg {
